@@ -5,6 +5,7 @@ from ..conds import lits_of
 from ..callgraph import cg_of
 from ..common import arg_term, contains_call, field_path, is_adapter_impl, in_adapter_module
 from .. import iters
+from ..roles import roles_of
 
 TEXT = ("Order-taint analysis over the whole crate. D1: every iteration whose order is not content-defined (HashMap / "
         "HashSet iteration, rayon parallel iteration, read_dir, the Vec<String> returned by a storage listing) is traced "
@@ -21,15 +22,15 @@ TRUSTED = ["rustc nightly MIR", "BTreeMap/BTreeSet iterate in key order", "C05/W
 
 # frozen order-sensitive flows: key -> reason (one line each, confirmed by reading)
 FROZEN = {
-    "melda::Melda::commit|hash|push(changes)":
-        "staged revisions of one tree (HashMap) -> change-record array of the block: block bytes only; apply_delta / replay_stage insert by revision (C01/L1)",
-    "melda::Melda::stage::{closure#0}|hash|push(changes)":
-        "stage export: same as commit; replay_stage adds each record by key",
-    "datastorage::DataStorage::pack|hash|assign(start),extend_from_slice(buf),push(buf)":
+    "melda::Melda::commit|hash|push":
+        "staged revisions of one tree (HashMap) -> change-record array of the block: block bytes only; the applier / replay_stage insert by revision (C01/L1, C15/G4b)",
+    "melda::Melda::stage|hash|push":
+        "stage export: same as commit; replay_stage adds each record by key, unconditionally",
+    "<pack_writer>|hash|assign,extend_from_slice,push":
         "staged objects (HashMap) -> pack bytes: readers index every object by its own digest (C10/H4), never by position",
-    "melda::Melda::meld::{closure#2}|hash|push(result)":
+    "melda::Melda::meld|hash|push":
         "HashSet of foreign item names -> the list of copied names returned by meld: informational, not replica state",
-    "datastorage::DataStorage::refresh|vec|push(new_packs)":
+    "datastorage::DataStorage::refresh|vec|push":
         "listing order -> list of newly applied pack names returned by DataStorage::refresh: informational, Melda::refresh ignores it",
 }
 
@@ -201,7 +202,22 @@ def run(facts, res):
             cbs = [cb for cb in [facts.body(p) for p in cterm.callee.fnargs] if cb is not None]
             if cbs:
                 owner = cbs[0].path
-        key = "%s|%s|%s" % (owner, kind.split("-")[0] if kind.startswith("rayon") and False else kind, ",".join(sinks))
+        root = facts.body(owner)
+        if root is not None and root.kind == "closure" and root.parent:
+            owner = root.parent
+        for _ in range(3):
+            ob = facts.body(owner)
+            if ob is None or ob.public or ob.impl_trait is not None:
+                break
+            callers = sorted({(facts.body(s_.body.parent) if s_.body.kind == "closure" and s_.body.parent else s_.body).path
+                              for s_ in cg.callers_of(owner)} - {owner})
+            if len(callers) != 1:
+                break
+            owner = callers[0]
+        if owner == roles_of(facts).path("pack_writer"):
+            owner = "<pack_writer>"
+        kinds = sorted({x.split("(")[0] for x in sinks})
+        key = "%s|%s|%s" % (owner, kind, ",".join(kinds))
         res.instance("D1", "%s: %s iteration (%s%s) -> %s: %s" % (body.path, kind, fl.src[4].name, "".join("." + c for c in reversed(fl.chain)), cons, why), where,
                      nontrivial=True)
         if verdict == "sink":
@@ -369,7 +385,7 @@ def _shared_root(t, body):
     return None
 
 
-FIXTURE_EXPECT = ['positional-on-shared', 'thread-identity', 'ordered_from_hash|hash|push(out)', 'ordered_from_hash|hash|find']
+FIXTURE_EXPECT = ['positional-on-shared', 'thread-identity', 'ordered_from_hash|hash|push', 'ordered_from_hash|hash|find']
 
 
 def thorough(res):
